@@ -45,7 +45,7 @@ fn call(v: &[u8]) -> Option<Result<bool, String>> {
     Some(crate::util::catch(|| http_serve::should_gzip(&h)))
 }
 
-fn judge_value(v: &[u8], sink: &mut Sink) -> (Verdict, bool) {
+pub fn judge_value(v: &[u8], sink: &mut Sink) -> (Verdict, bool) {
     let got = match call(v) {
         None => return (Verdict::DontCare("not a HeaderValue".into()), false),
         Some(Err(p)) => return (Verdict::viol(format!("panic@{}", norm_loc(&p)), format!("should_gzip panicked on {:?}: {}", show(v), p)), false),
